@@ -768,29 +768,31 @@ addmember(struct structbuilder *b, struct qualtype mt, char *name, int align, un
 	struct type *t = b->type;
 	struct member *m;
 	size_t end;
+	/* unnamed bit-fields and anonymous members have no name to print */
+	const char *dname = name ? name : "<unnamed>";
 
 	if (t->kind == TYPESTRUCT && t->flexible)
-		error(&tok.loc, "struct has member '%s' after flexible array member", name);
+		error(&tok.loc, "struct has member '%s' after flexible array member", dname);
 	if (mt.type->incomplete) {
 		if (mt.type->kind != TYPEARRAY)
-			error(&tok.loc, "struct member '%s' has incomplete type", name);
+			error(&tok.loc, "struct member '%s' has incomplete type", dname);
 		/* 6.7.2.1p3 */
 		if (t->kind != TYPESTRUCT || !t->u.structunion.members)
-			error(&tok.loc, "flexible array member '%s' must follow a named member of a struct", name);
+			error(&tok.loc, "flexible array member '%s' must follow a named member of a struct", dname);
 		t->flexible = true;
 	}
 	if (mt.type->flexible) {
 		if (t->kind == TYPESTRUCT)
-			error(&tok.loc, "struct member '%s' contains flexible array member", name);
+			error(&tok.loc, "struct member '%s' contains flexible array member", dname);
 		t->flexible = true;
 	}
 	if (mt.type->kind == TYPEFUNC)
-		error(&tok.loc, "struct member '%s' has function type", name);
+		error(&tok.loc, "struct member '%s' has function type", dname);
 	if (mt.type->prop & PROPVM)
-		error(&tok.loc, "struct member '%s' has variably modified type", name);
+		error(&tok.loc, "struct member '%s' has variably modified type", dname);
 	assert(mt.type->align > 0);
 	if (name && typemember(t, name, &(unsigned long long){0}))
-		error(&tok.loc, "duplicate member '%s'", name);
+		error(&tok.loc, "duplicate member '%s'", dname);
 	if (name || width == -1) {
 		m = xmalloc(sizeof(*m));
 		m->type = mt.type;
@@ -807,7 +809,7 @@ addmember(struct structbuilder *b, struct qualtype mt, char *name, int align, un
 		m->bits.after = 0;
 		if (align < mt.type->align) {
 			if (align)
-				error(&tok.loc, "specified alignment of struct member '%s' is less strict than is required by type", name);
+				error(&tok.loc, "specified alignment of struct member '%s' is less strict than is required by type", dname);
 			align = b->pack ? 1 : mt.type->align;
 		}
 		if (t->kind == TYPESTRUCT) {
@@ -821,15 +823,15 @@ addmember(struct structbuilder *b, struct qualtype mt, char *name, int align, un
 		b->bits = 0;
 	} else {  /* bit-field */
 		if (!(mt.type->prop & PROPINT))
-			error(&tok.loc, "bit-field '%s' has invalid type", name);
+			error(&tok.loc, "bit-field '%s' has invalid type", dname);
 		if (align)
-			error(&tok.loc, "alignment specified for bit-field '%s'", name);
+			error(&tok.loc, "alignment specified for bit-field '%s'", dname);
 		if (b->pack)
-			error(&tok.loc, "bit-field '%s' in packed struct is not supported", name);
+			error(&tok.loc, "bit-field '%s' in packed struct is not supported", dname);
 		if (!width && name)
-			error(&tok.loc, "bit-field '%s' with zero width must not have declarator", name);
+			error(&tok.loc, "bit-field '%s' with zero width must not have declarator", dname);
 		if (width > mt.type->size * 8)
-			error(&tok.loc, "bit-field '%s' exceeds width of underlying type", name);
+			error(&tok.loc, "bit-field '%s' exceeds width of underlying type", dname);
 		align = mt.type->align;
 		if (t->kind == TYPESTRUCT) {
 			/* calculate end of the storage-unit for this bit-field */
